@@ -5,6 +5,7 @@ from .common import *  # noqa: F401,F403
 from .common import Contract, Registry, LoopSpec, BASE_ENV, INIT, COMMON_PY, bounded_sweep
 
 REGISTRY = Registry()
+LEVEL = "exploration"      # no function of this property is under a deductive contract: the evidence says so
 TRUSTED = ["threading.Lock gives mutual exclusion"]
 ASSUMPTIONS = ["all tuples of one key have one arity; counters are non-negative ints"]
 NOT_COVERED = ["_WrapNumbers.run's nested dict/defaultdict/set state is outside the VC generator's container model: it is "
